@@ -42,8 +42,15 @@ def gen_rho(rng, n, count):
 
 def gen_gram(rng, n, count, cols=2):
     """2^n x cols Gaussian-integer matrices A (rho = A A^H is PSD); first column generic"""
-    return [[[_g(rng, lim=2) if c == 0 or rng.random() < 0.7 else (0, 0) for c in range(cols)]
-             for _ in range(2 ** n)] for _ in range(count)]
+    out = []
+    while len(out) < count:
+        A = [[_g(rng, lim=2) if c == 0 or rng.random() < 0.7 else (0, 0) for c in range(cols)] for _ in range(2 ** n)]
+        # InputsOK (KronSweep / Expand) wants rho = A A^H different from its transpose: some off-diagonal
+        # entry with a non-zero imaginary part (a real symmetric rho cannot tell rho from rho^T)
+        if any(sum(gmul(A[i][c], gconj(A[j][c]))[1] for c in range(cols)) != 0
+               for i in range(2 ** n) for j in range(i + 1, 2 ** n)):
+            out.append(A)
+    return out
 
 
 def family_defs(seed, nmax, counts=(2, 2, 2), beyond=0):
